@@ -99,6 +99,7 @@ def jProfile (j : Json) : Except String ProfileV := do
 def kindJ : Kind → Json
   | .bin => objJ [("k", strJ "B")]
   | .cont lb ub => objJ [("k", strJ "C"), ("lb", optJ ratJ lb), ("ub", optJ ratJ ub)]
+  | .int ub => objJ [("k", strJ "I"), ("ub", natJ ub)]
 
 def termsJ (ts : List (Rat × String)) : Json := listJ (fun t => listJ id [ratJ t.1, strJ t.2]) ts
 
